@@ -14,6 +14,7 @@ pub mod c25;
 pub mod c14;
 pub mod c26;
 pub mod c27;
+pub mod c30;
 pub mod c29;
 pub mod c29_core;
 pub mod doc;
@@ -36,6 +37,7 @@ pub fn dispatch(ctx: &Ctx) -> i32 {
         "C14" => c14::run(ctx, &mut rec),
         "C26" => c26::run(ctx, &mut rec),
         "C27" => c27::run(ctx, &mut rec),
+        "C30" => c30::run(ctx, &mut rec),
         "C29" => c29::run(ctx, &mut rec),
         other => {
             eprintln!("no workload for {other}");
